@@ -38,11 +38,11 @@ def dim_classes(I, names):
 
 def jobs(tier, seed, report):
     report.bounds = {'magnitude': 'unbounded rational (SMT Real)', 'powers': '-3..3 without 0, symbolic', 'prefixes': 'all 21 SI prefix exponents, symbolic (forked over the feasible prefix*power values)',
-                     'shapes': 'the same 2-3-unit product on both sides with an independent symbolic prefix on every entry; every unit to/from its base-SI expansion; all ordered pairs inside each dimension class (1 entry each); products/quotients: 2 and 3 entries per side over the 14-unit basis (quick: seeded sample), thorough: 4 entries; products/quotients of two different units of one dimension to base SI (all pairs, both tiers)'}
+                     'shapes': 'the same 2-3-unit product on both sides with an independent symbolic prefix on every entry; every unit to/from its base-SI expansion; all ordered pairs inside each dimension class (1 entry each); products/quotients: 2 and 3 entries per side over the 14-unit basis (quick: seeded sample), thorough: 4 entries; products/quotients of two different units of one dimension to base SI (all pairs, both tiers); every derived unit on BOTH sides with different powers (u^a*base(u)^(b-a) to u^b; quick: one seeded (a,b) of ten per unit, thorough: all ten), symbolic prefixes {0,3,-2} on both'}
     report.outside = ['more than 4 factors per side', 'offset scales (C09)', 'that the declared scales are the standard ones (C05)']
     report.assumptions = ['BigRational exact (SMT Real)', 'BTreeMap association-list model with the crate\'s own Ord']
     report.models_used = ['num', 'coll', 'core']
-    report.required_witnesses = ['to-base', 'from-base', 'same-class-pair', 'prefix-exact', 'power-law', 'product', 'chain']
+    report.required_witnesses = ['to-base', 'from-base', 'same-class-pair', 'prefix-exact', 'power-law', 'product', 'chain', 'shared-unit']
     rnd = random.Random(seed)
     I = harness.interp_for('dev')
     voc = ul.vocabulary(I)
@@ -69,6 +69,11 @@ def jobs(tier, seed, report):
     twins = sorted({tuple(sorted(p)) for p in pairs_all})
     rnd.shuffle(twins)
     for i in range(0, len(twins), 4): js.append({'name': f'twin-{i}', 'kind': 'product', 'shapes': [list(t) for t in twins[i:i + 4]]})
+    # the SAME derived unit on both sides with DIFFERENT powers (ft^2/m to ft): source = u^a * base(u)^(b-a), target = u^b
+    SH = [(2, 1), (1, 2), (-1, 1), (1, -1), (2, -1), (3, 1), (1, 3), (-2, -1), (2, 3), (-1, 2)]
+    shared = [(u, rnd.choice(SH)) for u in ders if U.dims_of(u)]
+    if tier != 'quick': shared = [(u, ab) for u in ders if U.dims_of(u) for ab in SH]
+    for i in range(0, len(shared), 6): js.append({'name': f'shared-{i}', 'kind': 'shared', 'items': [[u, list(ab)] for u, ab in shared[i:i + 6]]})
     # the same product on both sides with a different prefix on EVERY entry of source and target
     rep = []
     for _ in range(18 if tier == 'quick' else 100): rep.append(rnd.sample(B, 2 if tier == 'quick' else rnd.choice([2, 2, 2, 3])))
@@ -100,6 +105,8 @@ def run_job(job, res, prefixes, budget, deadline):
             convert_job(I, res, units, None, 'product', deadline, pfx=[0, 3], product=True)
     elif k == 'reprefix':
         for sh in job['shapes']: convert_job(I, res, [ul.resolve(I, n) for n in sh], None, 'product', deadline, pfx=[0, 3], reprefix=True)
+    elif k == 'shared':
+        for u, ab in job['items']: convert_job(I, res, [u], [u], 'shared-unit', deadline, pfx=[0, 3, -2], shared=tuple(ab))
     elif k == 'chain':
         for ch in job['chains']: chain_job(I, res, ch, deadline)
 
@@ -109,16 +116,23 @@ def run_factor(I, tgt, src, x):
     r = I.run_body(FACTOR, [VRef(Cell(rt.compound(I, tgt)), []), VRef(Cell(rt.compound(I, src)), []), VRef(cell, [])])
     return r, cell.val
 
-def convert_job(I, res, src_units, tgt_units, tag, deadline, src_fixed=None, tgt_fixed=None, pfx=None, sweep=None, product=False, reprefix=False):
+def convert_job(I, res, src_units, tgt_units, tag, deadline, src_fixed=None, tgt_fixed=None, pfx=None, sweep=None, product=False, reprefix=False, shared=None):
     PREFIX_VALUES = pfx or FEW_PREFIXES
     def entry(I):
         x = z3.Real('x')
         if product:
             # prefix symbolic on the first entry only, powers in [-2,2]
             src = ul.sym_entries(I, src_units[:1], 's', -2, 2, prefixes=PREFIX_VALUES) + [(u, p, 0) for u, p, _ in ul.sym_entries(I, src_units[1:], 'r', -2, 2)]
-        else:
+        elif not shared:
             src = src_fixed or ul.sym_entries(I, src_units, 's', prefixes=PREFIX_VALUES if sweep != 'tgt' else [0, 3])
-        if reprefix:
+        if shared:
+            a, b = shared
+            u = src_units[0]
+            f1 = z3.Int('shf'); f2 = z3.Int('tgf')
+            I.assume(z3.Or([f1 == v for v in PREFIX_VALUES])); I.assume(z3.Or([f2 == v for v in PREFIX_VALUES]))
+            src = [(u, a, f1)] + [(bb, e * (b - a), 0) for bb, e in sorted(U.dims_of(u).items())]
+            tgt = [(u, b, f2)]
+        elif reprefix:
             src = ul.sym_entries(I, src_units, 's', -1, 2, prefixes=PREFIX_VALUES)
             tgt = [(u, p, z3.Int(f'tf{i}')) for i, (u, p, _) in enumerate(src)]
             for _, _, f in tgt: I.assume(z3.Or([f == v for v in PREFIX_VALUES]))
